@@ -184,6 +184,7 @@ def enc_reg(kind, v):
 
 
 text_st = st.text(alphabet=st.characters(min_codepoint=0x20, max_codepoint=0x7E), min_size=0, max_size=24)
+ascii_text_st = st.one_of(text_st, st.text(alphabet=st.characters(min_codepoint=0x00, max_codepoint=0x7F), min_size=0, max_size=24), text_st.map(lambda t: t[:20] + "\x00\x00"))
 text1_st = st.text(alphabet=st.characters(min_codepoint=0x20, max_codepoint=0x7E), min_size=1, max_size=24)
 
 # ============================================================================================================
@@ -256,7 +257,7 @@ def aidon_list_st(draw):
     out = []
     for code in codes:
         if code in _TXT:
-            out.append(("text", code, draw(st.sampled_from([dict(AIDON_TEXT)[code]]) | text_st)))
+            out.append(("text", code, draw(st.sampled_from([dict(AIDON_TEXT)[code]]) | ascii_text_st)))
         elif code == AIDON_CLOCK:
             out.append(("clock", code, draw(dt_spec_st())))
         else:
@@ -395,8 +396,8 @@ def kamstrup_list_st(draw):
     """(layout, list_ver, [(obis, name, kind, value)], pads, apdu_dt, tagged)."""
     layout = draw(st.sampled_from(list(KAM_LAYOUTS)))
     ct = draw(st.booleans())
-    mtype = draw(st.sampled_from(_CT_TYPES) | text_st.map(lambda s: "685" + s[:15])) if ct else draw(st.sampled_from(_NONCT_TYPES) | text_st.filter(lambda s: not s.startswith("685")))
-    items = [(KAM_ID[0][0], "meter_id", "text", draw(st.sampled_from([KAM_ID[0][2]]) | text_st)), (KAM_ID[1][0], "meter_type", "text", mtype)]
+    mtype = draw(st.sampled_from(_CT_TYPES) | ascii_text_st.map(lambda s: "685" + s[:15])) if ct else draw(st.sampled_from(_NONCT_TYPES) | ascii_text_st.filter(lambda s: not s.startswith("685")))
+    items = [(KAM_ID[0][0], "meter_id", "text", draw(st.sampled_from([KAM_ID[0][2]]) | ascii_text_st)), (KAM_ID[1][0], "meter_type", "text", mtype)]
     for code, name in KAM_LAYOUTS[layout]:
         if name == "meter_datetime":
             items.append((code, name, "clock", draw(dt_spec_st())))
@@ -406,7 +407,7 @@ def kamstrup_list_st(draw):
             items.append((code, name, "u32", draw(reg_st("u32"))))
     pad_mode = draw(st.sampled_from(["none", "none", "some", "all"]))
     pads = [0 if pad_mode == "none" else (draw(st.integers(0, 6)) if pad_mode == "some" else draw(st.integers(1, 6))) for _ in range(len(items) + 1)]
-    list_ver = draw(st.sampled_from(["Kamstrup_V0001"]) | text_st)
+    list_ver = draw(st.sampled_from(["Kamstrup_V0001"]) | ascii_text_st)
     return (layout, list_ver, items, pads, draw(dt_spec_st()), draw(st.booleans()))
 
 
